@@ -51,7 +51,7 @@ def case_from_model(v) -> dict:
         for m, got in ln["ev"]:
             plan.append(L.ERR if got < 0 else max(got, 1))
     return {"data": c["data"], "limit": c["limit"], "is_max": c["is_max"], "hasri": c["hasri"],
-            "wrapper": "raw", "bufsize": 8, "plan": plan, "default": L.HUGE,
+            "wrapper": c.get("wrapper", "raw"), "bufsize": c.get("bufsize", 8), "plan": plan, "default": L.HUGE,
             "ops": [[ln["op"], ln["n"]] for ln in hist], "exp": hist}
 
 
